@@ -213,6 +213,60 @@ fn verdict_of(v: &Value) -> Option<bool> {
     }
 }
 
+/// Split an erasure `(head a b (c d) …)` into its top-level items (atoms or parenthesised groups).
+fn sx_items(s: &str) -> Vec<&str> {
+    let inner = s.strip_prefix('(').and_then(|x| x.strip_suffix(')')).unwrap_or(s);
+    let mut out = vec![];
+    let (mut depth, mut start) = (0i32, None);
+    for (i, c) in inner.char_indices() {
+        match c {
+            '(' => {
+                if depth == 0 && start.is_none() {
+                    start = Some(i);
+                }
+                depth += 1;
+            }
+            ')' => {
+                depth -= 1;
+                if depth == 0 && let Some(st) = start.take() {
+                    out.push(&inner[st..=i]);
+                }
+            }
+            ' ' if depth == 0 => {
+                if let Some(st) = start.take() {
+                    out.push(&inner[st..i]);
+                }
+            }
+            _ => {
+                if start.is_none() {
+                    start = Some(i);
+                }
+            }
+        }
+    }
+    if let Some(st) = start {
+        out.push(&inner[st..]);
+    }
+    out
+}
+
+/// Do the erasures `ea`, `eb` differ only underneath positions where `ea` is NIL? (F25: the static
+/// type of a nil-valued variable can have lost its nil variant, so *type tests* — which is what a
+/// literal tuple / `[]` / `Ok` pattern compiles to — at those positions are decided statically.)
+fn differ_only_at_nil(ea: &str, eb: &str) -> bool {
+    if ea == "(t _ ())" {
+        return true;
+    }
+    if ea == eb {
+        return true;
+    }
+    let (ia, ib) = (sx_items(ea), sx_items(eb));
+    if ia.len() != ib.len() || ia.len() < 3 || ia[0] != "t" || ib[0] != "t" || ia[1] != ib[1] || ia[2] != ib[2] {
+        return false;
+    }
+    ia[3..].iter().zip(ib[3..].iter()).all(|(x, y)| differ_only_at_nil(x, y))
+}
+
 // ---------- one compared pair ----------
 
 /// Names of the verdict slots following `a` and `b` in the result tuple.
@@ -239,6 +293,9 @@ fn replay_json(info: &PairInfo, a: &Value, b: &Value, slots: &[Option<bool>], de
         "b": render_val(b),
         "verdicts": SLOTS.iter().zip(slots.iter()).map(|(n, v)| json!({"form": n, "impl": v})).collect::<Vec<_>>(),
         "detail": detail,
+        "literal_of_b": info.lit_is_b,
+        "workers": info.extra["workers"],
+        "sched_seed": info.extra["sched_seed"],
         "extra": info.extra,
     })
 }
@@ -421,7 +478,7 @@ fn check_pair(ev: &mut Ev, model: &mut Model, t: &Tables, result: &Value, info: 
                 2 => a.is_nil() || b.is_nil(),
                 _ => false,
             };
-            let sig = if i == 4 && w && ea.contains("(t _ ())") {
+            let sig = if i == 4 && ea.contains("(t _ ())") && (w || differ_only_at_nil(&ea, &eb)) {
                 // `=[]` (alone or inside a tuple pattern) is a *type* test compiled to IsType, not
                 // to Equal; it rejects a nil value whose static type is a union containing nil
                 "literal=nil-pattern-rejects-nil-value".to_string()
@@ -538,6 +595,8 @@ fn part_canon(ev: &mut Ev, model: &mut Model, opts: &Opts) {
 
 struct Case {
     pb: Pb,
+    /// the same program as several REPL inputs (sim only, when it has no typed messages)
+    chunks: Option<Vec<String>>,
     src: String,
     spec_equal: bool,
     lit_is_b: bool,
@@ -559,18 +618,26 @@ fn gen_case(r: &mut Rng, sim: bool) -> Case {
     }
     let va = pb.build(&sa, r);
     let vb = pb.build(&sb, r);
-    let lit = sb.literal_pattern();
+    // `a =<literal>`: only integer / binary literals compile to Equal (tuple, `[]`, `Ok` patterns are
+    // positional *type* tests with looser rules than structural equality — spec "Destructuring")
+    let lit = if matches!(sb, r#gen::S::Int(_) | r#gen::S::Bin(_)) { sb.literal_pattern() } else { None };
     let mut result = format!("[&{va}, &{vb}, &{va} =&{vb}, &{vb} =&{va}, [&{va}, &{vb}] =[z, z], &{va} =&{va}");
     if let Some(l) = &lit {
         result.push_str(&format!(", &{va} ={l}"));
     }
     result.push(']');
     let src = pb.source(&result);
-    Case { spec_equal: sa == sb, lit_is_b: true, has_lit: lit.is_some(), src, pb }
+    let chunks = if sim && !pb.uses_me && r.below(2) == 0 {
+        let k = 2 + r.usize(3);
+        Some(pb.chunks(&result, k, r))
+    } else {
+        None
+    };
+    Case { spec_equal: sa == sb, lit_is_b: true, has_lit: lit.is_some(), src, pb, chunks }
 }
 
 fn part_sync(ev: &mut Ev, model: &mut Model, opts: &Opts, b: &Builtins) {
-    let n = opts.tier.pick(6000u64, 150000u64);
+    let n = opts.tier.pick(6000u64, 260000u64);
     for i in 0..n {
         let mut r = Rng::for_case(opts.seed ^ 0x5C_0002, i);
         let c = gen_case(&mut r, false);
@@ -602,7 +669,33 @@ fn run_sync_case(
             return None;
         }
     };
-    let bc = unit.program.to_bytecode(Some(unit.entry));
+    // every fourth program runs as `quiv run` would: tree-shaken bytecode (tuple ids remapped, the
+    // canonical table computed over the shaken tuple table)
+    let shaken = {
+        use std::hash::{Hash, Hasher};
+        let mut h = std::collections::hash_map::DefaultHasher::new();
+        src.hash(&mut h);
+        h.finish() % 4 == 0
+    };
+    let bc = if shaken {
+        match qverif::catch(|| unit.program.to_bytecode_optimized(unit.entry)) {
+            Ok(bc) => {
+                ev.hit("sync:tree-shaken");
+                bc
+            }
+            Err(p) => {
+                ev.violation(
+                    "run=panic",
+                    &format!("tree_shake panicked: {}", p.lines().next().unwrap_or("")),
+                    json!({"mode": "sync", "source": src, "tree_shaken": true}),
+                    true,
+                );
+                return None;
+            }
+        }
+    } else {
+        unit.program.to_bytecode(Some(unit.entry))
+    };
     if std::env::var("C13_DUMP").is_ok() {
         for (i, f) in bc.functions.iter().enumerate() {
             eprintln!("fn {i}: {:?}", f.instructions);
@@ -662,7 +755,12 @@ fn run_sim_case(
 ) -> Option<Vec<Option<bool>>> {
     let mut sys = sim::Sys::new(workers, b, modules.clone());
     let mut r = Rng::for_case(sched_seed, 0);
-    let out = match qverif::catch(|| sys.evaluate(src, &mut r, 400_000)) {
+    // a line `//--` separates REPL inputs (program growth between them)
+    let chunks: Vec<String> = src.split("\n//--\n").map(String::from).collect();
+    if chunks.len() > 1 {
+        ev.hit("sim:multi-input-program");
+    }
+    let out = match qverif::catch(|| sys.evaluate_chunks(&chunks, &mut r, 400_000)) {
         Ok(o) => o,
         Err(p) => {
             ev.violation(
@@ -741,13 +839,17 @@ fn collect_refs(v: &Value, out: &mut Vec<u64>) {
 }
 
 fn part_sim(ev: &mut Ev, model: &mut Model, opts: &Opts, b: &Builtins) {
-    let n = opts.tier.pick(900u64, 25000u64);
+    let n = opts.tier.pick(900u64, 40000u64);
     for i in 0..n {
         let mut r = Rng::for_case(opts.seed ^ 0x51_0003, i);
         let c = gen_case(&mut r, true);
         let workers = 2 + r.usize(3);
         let sched = r.next();
-        run_sim_case(ev, model, b, &c.src, &c.pb.modules, Some(c.spec_equal), Some(c.lit_is_b), &c.pb.paths, workers, sched, json!({"case": i}));
+        let src = match &c.chunks {
+            Some(ch) => ch.join("\n//--\n"),
+            None => c.src.clone(),
+        };
+        run_sim_case(ev, model, b, &src, &c.pb.modules, Some(c.spec_equal), Some(c.lit_is_b), &c.pb.paths, workers, sched, json!({"case": i}));
     }
 }
 
@@ -968,9 +1070,56 @@ fn vary_raw(v: &Value, r: &mut Rng, d: &Direct) -> Value {
     }
 }
 
+fn handles_all(h: &[usize]) -> Vec<usize> {
+    let mut v = h.to_vec();
+    v.sort();
+    v.dedup();
+    v
+}
+
+/// A rope with flattened content `bytes` in a random shape, built from the raw `BinaryData`
+/// variants (the smart constructors normalise shapes away), with its driver syntax. Third component:
+/// well-formed (stored lengths are the flattened lengths)? A few are deliberately not (tie only).
+fn gen_rope(r: &mut Rng, bytes: &[u8], depth: usize) -> (quiver_core::binary::BinaryData, String, bool) {
+    use quiver_core::binary::BinaryData as B;
+    use std::rc::Rc;
+    let choice = if depth == 0 { 0 } else { r.below(9) };
+    match choice {
+        1 | 2 => {
+            let k = r.usize(bytes.len() + 1);
+            let (l, ls, lo) = gen_rope(r, &bytes[..k], depth - 1);
+            let (rr, rs, ro) = gen_rope(r, &bytes[k..], depth - 1);
+            let bad = r.below(25) == 0;
+            let total = if bad { bytes.len() + 1 } else { bytes.len() };
+            (B::Concat { left: Rc::new(l), right: Rc::new(rr), total_length: total }, format!("(c {ls} {rs} {total})"), lo && ro && !bad)
+        }
+        3 | 4 => {
+            let (n1, n2) = (r.usize(3), r.usize(3));
+            let mut big = r.bytes(n1);
+            big.extend_from_slice(bytes);
+            let post = r.bytes(n2);
+            big.extend_from_slice(&post);
+            let (p, ps, po) = gen_rope(r, &big, depth - 1);
+            (B::Slice { parent: Rc::new(p), offset: n1, length: bytes.len() }, format!("(s {ps} {n1} {})", bytes.len()), po)
+        }
+        5 | 6 | 7 => {
+            let ps = r#gen::periods(bytes);
+            if ps.is_empty() {
+                (B::new(bytes.to_vec()), bytes_sx(bytes), true)
+            } else {
+                let d = ps[r.usize(ps.len())];
+                let (u, us, uo) = gen_rope(r, &bytes[..d], depth - 1);
+                (B::Tiled { unit: Rc::new(u), count: bytes.len() / d }, format!("(tl {us} {})", bytes.len() / d), uo)
+            }
+        }
+        8 if bytes.iter().all(|x| *x == 0) => (B::Zeroed(bytes.len()), format!("(z {})", bytes.len()), true),
+        _ => (B::new(bytes.to_vec()), bytes_sx(bytes), true),
+    }
+}
+
 fn part_direct(ev: &mut Ev, model: &mut Model, opts: &Opts, b: &Builtins) {
     use quiver_core::executor::ProgramUpdate;
-    let n = opts.tier.pick(700u64, 20000u64);
+    let n = opts.tier.pick(700u64, 40000u64);
     let names = [None, Some("P"), Some("Q")];
     let labels = [None, Some("x"), Some("y")];
     let pool: [&[u8]; 5] = [&[], &[1], &[1, 2], &[1, 2, 3], &[0]];
@@ -1021,26 +1170,53 @@ fn part_direct(ev: &mut Ev, model: &mut Model, opts: &Opts, b: &Builtins) {
             builtin_param_compatibility: vec![],
             canonical_tuples: canon.clone(),
         });
+        // heap slots hold ropes of every shape; several slots share their content (drawn from a small
+        // pool of periodic / zero contents) so that equal bytes meet in different shapes
         let mut heap: Vec<Vec<u8>> = vec![];
+        let mut heap_sx: Vec<String> = vec![];
         let mut handles = vec![];
-        for _ in 0..r.usize(6) {
-            let bytes = pool[r.usize(pool.len())].to_vec();
-            if let Ok(Binary::Heap(ix)) = ex.allocate_binary(bytes.clone()) {
+        let mut ill_formed_rope = false;
+        let contents: [&[u8]; 7] = [&[], &[1], &[1, 2], &[1, 2, 3], &[0xab; 8], &[0, 0, 0, 0], &[1, 2, 1, 2, 1, 2]];
+        let shared = contents[r.usize(contents.len())];
+        for _ in 0..r.usize(7) {
+            let bytes: Vec<u8> = if r.below(2) == 0 { shared.to_vec() } else { contents[r.usize(contents.len())].to_vec() };
+            let (data, sx, ok) = gen_rope(&mut r, &bytes, 2);
+            ill_formed_rope |= !ok;
+            if let Ok(Binary::Heap(ix)) = ex.allocate_binary_data(data) {
                 if heap.len() <= ix {
                     heap.resize(ix + 1, vec![]);
+                    heap_sx.resize(ix + 1, "(b)".to_string());
                 }
                 heap[ix] = bytes;
+                heap_sx[ix] = sx;
                 handles.push(ix);
             }
         }
         let d = Direct {
             ntuples: tuples.len(),
             nconsts: consts.len(),
-            heap_handles: handles,
+            heap_handles: handles.clone(),
             arities: tuples.iter().map(|t| t.fields.len()).collect(),
         };
-        let mut reqs = vec![ctxraw_line(&tuples, &canon, &consts, &heap)];
+        let ctx = {
+            let flat = ctxraw_line(&tuples, &canon, &consts, &heap);
+            let k = flat.find(" (heap").unwrap();
+            format!("{} (heap{}{}))", &flat[..k], if heap_sx.is_empty() { "" } else { " " }, heap_sx.join(" "))
+        };
+        let mut reqs = vec![ctx];
         let mut pairs = vec![];
+        // all pairs of heap binaries (shape against shape), then mixed values
+        for x in &handles_all(&handles) {
+            for y in &handles_all(&handles) {
+                if x < y || (x == y && r.below(4) == 0) {
+                    let (a, b2) = (Value::Binary(Binary::Heap(*x)), Value::Binary(Binary::Heap(*y)));
+                    reqs.push(format!("(equal {} {})", render_val(&a), render_val(&b2)));
+                    reqs.push(format!("(wf {})", render_val(&a)));
+                    reqs.push(format!("(wf {})", render_val(&b2)));
+                    pairs.push((a, b2));
+                }
+            }
+        }
         for _ in 0..8 {
             let a = gen_raw(&mut r, &d, 2);
             let b2 = if r.below(4) == 0 { gen_raw(&mut r, &d, 2) } else { vary_raw(&a, &mut r, &d) };
@@ -1058,7 +1234,10 @@ fn part_direct(ev: &mut Ev, model: &mut Model, opts: &Opts, b: &Builtins) {
             let want = &ans[3 * k + 1];
             let model_wf = ans[3 * k + 2] == "true" && ans[3 * k + 3] == "true";
             ev.case(&(i, k, render_val(a), render_val(b2)), true);
-            if model_wf && !stale {
+            if ill_formed_rope {
+                ev.hit("direct:ill-formed-rope-in-heap");
+            }
+            if model_wf && !stale && !ill_formed_rope {
                 ev.hit("direct:well-formed-pair");
                 // instance of valuesEqual_iff_erase on the implementation itself (process handles in
                 // raw values are arbitrary, so pairs with two handles of one pid are left to the tie)
@@ -1085,7 +1264,7 @@ fn part_direct(ev: &mut Ev, model: &mut Model, opts: &Opts, b: &Builtins) {
                 // does the property fail on well-formed operands? (oracle: erasures)
                 let t = Tables { tuples: &tuples, consts: &consts, heap: &heap };
                 let (ea, eb) = (erase_str(a, &t), erase_str(b2, &t));
-                let oracle_fails = model_wf && !stale && (got == "true") != (ea == eb);
+                let oracle_fails = model_wf && !stale && !ill_formed_rope && (got == "true") != (ea == eb);
                 ev.violation(
                     &format!("tie=values_equal arm={}", a.type_name()),
                     &format!("values_equal({}, {}) = {got}, model valuesEqual = {want}", render_val(a), render_val(b2)),
@@ -1093,6 +1272,47 @@ fn part_direct(ev: &mut Ev, model: &mut Model, opts: &Opts, b: &Builtins) {
                     oracle_fails,
                 );
             }
+        }
+    }
+    // transitivity on the implementation itself, over heap binaries of every shape
+    for i in 0..opts.tier.pick(300u64, 6000u64) {
+        let mut r = Rng::for_case(opts.seed ^ 0x7A_0007, i);
+        let mut ex = qverif::run::Exec::new(b.clone(), false, 0);
+        let contents: [&[u8]; 5] = [&[0xab; 8], &[0, 0, 0, 0, 0, 0], &[1, 2, 1, 2, 1, 2, 1, 2], &[7], &[]];
+        let bytes = contents[r.usize(contents.len())].to_vec();
+        let mut vals = vec![];
+        let mut sxs = vec![];
+        for _ in 0..3 {
+            // mostly the same content, sometimes one byte off
+            let mut bts = bytes.clone();
+            if r.below(6) == 0 && !bts.is_empty() {
+                let k = r.usize(bts.len());
+                bts[k] ^= 1;
+            }
+            let (data, sx, ok) = gen_rope(&mut r, &bts, 2);
+            if !ok {
+                continue;
+            }
+            if let Ok(h) = ex.allocate_binary_data(data) {
+                vals.push((Value::Binary(h), bts));
+                sxs.push(sx);
+            }
+        }
+        if vals.len() < 3 {
+            continue;
+        }
+        let eq = |x: usize, y: usize| ex.verif_values_equal(&vals[x].0, &vals[y].0);
+        let (ab, bc, ac, ba) = (eq(0, 1), eq(1, 2), eq(0, 2), eq(1, 0));
+        ev.case(&("triple", i, &sxs), true);
+        ev.hit(&format!("direct:triple:{}{}{}", ab as u8, bc as u8, ac as u8));
+        let want = |x: usize, y: usize| vals[x].1 == vals[y].1;
+        if (ab && bc && !ac) || ab != ba || ab != want(0, 1) || bc != want(1, 2) || ac != want(0, 2) || !eq(0, 0) {
+            ev.violation(
+                "equal=binary-verdict-depends-on-rope-shape",
+                &format!("binaries {} / {} / {}: a=b {ab}, b=a {ba}, b=c {bc}, a=c {ac} (bytes equal: {} {} {})", sxs[0], sxs[1], sxs[2], want(0, 1), want(1, 2), want(0, 2)),
+                json!({"part": "triple", "ropes": sxs, "ab": ab, "ba": ba, "bc": bc, "ac": ac}),
+                true,
+            );
         }
     }
     // oracle on the implementation: refs minted at distinct (worker, counter < 2^48) are distinct
